@@ -1,7 +1,7 @@
 //! Child process that runs pilota-build once:
 //!   vbuild <thrift|proto> <out.rs | out-dir for workspace> <main idl>... [--include-dir d]...
 //!          [--split] [--keep-unknown <idl>]... [--no-change-case] [--ignore-unused] [--touch <idl>:<Name>,...]
-//!          [--workspace]
+//!          [--workspace] [--dedup Name,Name,...]
 //! Isolation matters: the builder may panic or call process::exit.
 use std::path::PathBuf;
 
@@ -21,6 +21,7 @@ fn main() {
     let mut change_case = true;
     let mut ignore_unused = false;
     let mut workspace = false;
+    let mut dedup: Vec<String> = vec![];
     let mut i = 2;
     while i < args.len() {
         match args[i].as_str() {
@@ -41,6 +42,10 @@ fn main() {
             "--no-change-case" => change_case = false,
             "--ignore-unused" => ignore_unused = true,
             "--workspace" => workspace = true,
+            "--dedup" => {
+                i += 1;
+                dedup = args[i].split(',').map(|s| s.to_string()).collect();
+            }
             o => idls.push(PathBuf::from(o)),
         }
         i += 1;
@@ -57,6 +62,9 @@ fn main() {
                 .keep_unknown_fields(keep);
             if !touches.is_empty() {
                 b = b.touch(touches);
+            }
+            if !dedup.is_empty() {
+                b = b.dedup(dedup.iter().map(|s| s.clone().into()));
             }
             b.compile_with_config(services, output);
         }
